@@ -365,7 +365,11 @@ pub fn gen_btor2(rng: &mut StdRng) -> Vec<u8> {
             11 => format!("{} {} {} {} {}", id, ["uext", "sext"][rng.gen_range(0..2)], a, b, rng.gen_range(0..9)),
             12 => format!("{} {} {} {} {}", id, ["init", "next"][rng.gen_range(0..2)], a, b, a),
             13 => format!("{} {} {}", id, ["bad", "constraint", "fair", "output"][rng.gen_range(0..4)], a),
-            14 => format!("{} justice {}{}", id, 2, format!(" {} {}", a, b)),
+            14 => {
+                // a condition count that is right - or announces more conditions than any line can hold
+                let cnt = if rng.gen_range(0..4) == 0 { ["3", "65536", "4294967296", "1152921504606846976", "9223372036854775807", "18446744073709551615"][rng.gen_range(0..6)] } else { "2" };
+                format!("{} justice {} {} {}", id, cnt, a, b)
+            }
             _ => format!("{} {} {} {} {} {}", id, ["ite", "write"][rng.gen_range(0..2)], a, a, b, a),
         };
         out.push_str(&line);
@@ -399,7 +403,7 @@ pub fn mutate(doc: &[u8], rng: &mut StdRng) -> Vec<u8> {
     if d.is_empty() {
         return vec![rng.gen()];
     }
-    match rng.gen_range(0..17) {
+    match rng.gen_range(0..18) {
         14 | 15 => {
             // a byte that differs from a byte of the document in a few bits (case bit, high bit, 0x40, 0x10, neighbours):
             // what table / bit-trick classifiers confuse with it - in its place, or right behind it
@@ -418,6 +422,13 @@ pub fn mutate(doc: &[u8], rng: &mut StdRng) -> Vec<u8> {
                 _ => b ^ 0x08,
             };
             if rng.gen_bool(0.5) { d[i] = alias; } else { d.insert(i + 1, alias); }
+        }
+        17 => {
+            // a stray sign or sign-like token between two tokens, or in place of a number
+            let ends: Vec<usize> = (0..=d.len()).filter(|&i| i == 0 || i == d.len() || b" \t\n".contains(&d[i - 1])).collect();
+            let e = ends[rng.gen_range(0..ends.len())];
+            let tok: &[u8] = [&b"- "[..], b"-", b"+ ", b"-- ", b"-x ", b"0- ", b"- 0 ", b"-\n"][rng.gen_range(0..8)];
+            d.splice(e..e, tok.iter().copied());
         }
         16 => {
             // the same right behind the end of a token
